@@ -4,6 +4,7 @@
 use crate::hist::*;
 use crate::rng::Rng;
 use crate::treegen::*;
+use taffy::prelude::*;
 
 pub fn cfg() -> GenCfg {
     let mut c = GenCfg::default();
@@ -207,6 +208,67 @@ pub fn update_scribbled(trace: &[taffy::verif_hooks::Event], map: &mut std::coll
 pub fn main(args: &[String]) {
     std::panic::set_hook(Box::new(|_| {}));
     match args[0].as_str() {
+        "infcorpus" => {
+            // unbounded DEFINITE available space (f32::INFINITY) next to max-content / min-content: the two are different
+            // constraints for the algorithms, so a relayout after switching between them must equal a fresh layout
+            let text = || NodeSpec { style: Style::default(), ctx: Some(Ctx::Text(17, 8.0)), children: vec![] };
+            let fixed = || NodeSpec { style: Style { size: Size { width: length(20.0), height: length(30.0) }, ..Default::default() }, ctx: None, children: vec![] };
+            let cont = |st: Style, ch: Vec<NodeSpec>| NodeSpec { style: st, ctx: None, children: ch };
+            let column = || Style { display: Display::Flex, flex_direction: FlexDirection::Column, ..Default::default() };
+            let row = || Style { display: Display::Flex, ..Default::default() };
+            let grid = || Style { display: Display::Grid, grid_template_columns: vec![percent(0.5), percent(0.5)], ..Default::default() };
+            let block = || Style { display: Display::Block, ..Default::default() };
+            let trees: Vec<NodeSpec> = vec![
+                cont(column(), vec![cont(column(), vec![text(), fixed()])]),
+                cont(grid(), vec![text(), fixed()]),
+                cont(block(), vec![cont(row(), vec![text(), fixed()])]),
+                cont(row(), vec![cont(column(), vec![text()]), fixed()]),
+                cont(column(), vec![cont(grid(), vec![text(), text()])]),
+            ];
+            let inf = AvailableSpace::Definite(f32::INFINITY);
+            let spaces = [
+                Size::MAX_CONTENT,
+                Size { width: inf, height: inf },
+                Size { width: inf, height: AvailableSpace::MaxContent },
+                Size { width: AvailableSpace::MinContent, height: AvailableSpace::MaxContent },
+                Size { width: AvailableSpace::MaxContent, height: inf },
+            ];
+            let lay = |spec: &NodeSpec, hist: &[Size<AvailableSpace>]| -> Option<Vec<Vec<u32>>> {
+                let spec = spec.clone();
+                let hist = hist.to_vec();
+                std::panic::catch_unwind(move || {
+                    let mut t: TaffyTree<Ctx> = TaffyTree::new();
+                    let mut ids = vec![];
+                    let root = build(&mut t, &spec, &mut ids);
+                    for a in hist {
+                        compute(&mut t, root, a);
+                    }
+                    ids.iter().map(|n| { let mut v = layout_bits(t.unrounded_layout(*n)); v.extend(layout_bits(t.layout(*n).unwrap())); v }).collect()
+                })
+                .ok()
+            };
+            let mut cases = 0;
+            for (ti, spec) in trees.iter().enumerate() {
+                for (i, a) in spaces.iter().enumerate() {
+                    for (j, b) in spaces.iter().enumerate() {
+                        if i == j {
+                            continue;
+                        }
+                        cases += 1;
+                        match (lay(spec, &[*a, *b]), lay(spec, &[*b])) {
+                            (Some(x), Some(y)) => {
+                                if x != y {
+                                    let k = (0..x.len()).find(|k| x[*k] != y[*k]).unwrap();
+                                    println!("FAIL infcorpus tree {ti} spaces {i}->{j} (0 max-content, 1 definite(inf) both, 2 definite(inf) width, 3 min-content width, 4 definite(inf) height): node#{k} after the two passes {:?} but a fresh tree laid out under the second space gives {:?}", x[k].iter().map(|b| f32::from_bits(*b)).collect::<Vec<_>>(), y[k].iter().map(|b| f32::from_bits(*b)).collect::<Vec<_>>());
+                                }
+                            }
+                            _ => {} // a panic under an infinite available space is C03's business
+                        }
+                    }
+                }
+            }
+            println!("INFCORPUS {cases}");
+        }
         "oracle" => {
             let seed: u64 = args[1].parse().unwrap();
             let start: u64 = args[2].parse().unwrap();
